@@ -633,6 +633,21 @@ impl Drv {
                         } else {
                             None
                         };
+                        // an instruction that refers to its own (explicit, fresh) result id in one of its id operands - a
+                        // variable initialised with itself, a copy of itself: nothing validates ids, it must go through
+                        if let (Some(x), false, 5) = (rid_explicit, rep.explicit_reused, arg_seed % 16) {
+                            'outer: for g in groups.iter_mut() {
+                                if g.kind == s.k_idref {
+                                    for it in g.items.iter_mut() {
+                                        if let Some(MOp::W(_, v)) = it.first_mut() {
+                                            *v = x;
+                                            break 'outer;
+                                        }
+                                    }
+                                }
+                            }
+                            want.ops = groups.iter().flat_map(|g| g.items.iter().flatten().cloned()).collect();
+                        }
                         want.rid = if has_rid { rid_explicit } else { None };
                         rep.explicit_rid = rid_explicit;
                         let mut a = ArgSrc::new(want.rtype, rid_explicit, groups, ip);
